@@ -380,6 +380,30 @@ func (e *Exec) refEq(x, y Value) T {
 		}
 		return Or(And(nx, ny), And(Not(nx), Not(ny), same))
 	}
+	ix, okx := x.(VIface)
+	iy, oky := y.(VIface)
+	if okx && oky {
+		if ix.Obj != nil && iy.Obj != nil {
+			if ix.Obj == iy.Obj {
+				return Eq(nx, ny)
+			}
+			return And(nx, ny)
+		}
+		if ix.Dyn != nil && iy.Dyn != nil {
+			if !types.Identical(ix.Dyn, iy.Dyn) {
+				return And(nx, ny)
+			}
+			if px, ok1 := ix.Val.(VPtr); ok1 {
+				if py, ok2 := iy.Val.(VPtr); ok2 {
+					return e.refEq(px, py)
+				}
+			}
+		}
+		if (ix.Obj != nil && iy.Dyn != nil) || (ix.Dyn != nil && iy.Obj != nil) {
+			// abstract pre-state object vs. value constructed here: distinct unless both nil
+			return And(nx, ny)
+		}
+	}
 	e.unsupported(fmt.Sprintf("reference comparison %T == %T", x, y))
 	return e.fresh("refeq", BoolSort)
 }
